@@ -2,6 +2,7 @@
 # Runs every seeded change under /verif/seeded against the quick check of the property it
 # breaks (and, with extra args "<dir> <prop>", against another property's check).
 # Output: one line per change: KILLED/MISSED <change> by <check> [signature]
+# KM_MATCH (a grep -E pattern on change names) restricts the run to part of the set.
 # MUT_REPO / MUT_VERIF (see mutrun.sh) let it run on a scratch worktree and a snapshot of /verif.
 verif=${MUT_VERIF:-/verif}
 cd $verif
@@ -10,6 +11,7 @@ out=${KM_OUT:-/verif/seeded/KILLMATRIX.txt}
 for d in $verif/seeded/*/; do
   n=$(basename "$d")
   [ -f "$d/patch.diff" ] || continue
+  if [ -n "${KM_MATCH:-}" ] && ! echo "$n" | grep -qE "$KM_MATCH"; then continue; fi
   if python3 -c "import json,sys;sys.exit(0 if json.load(open('$d/meta.json')).get('superseded') else 1)"; then
     echo "SUPERSEDED $n (see its meta.json)" >> "$out.tmp"; continue
   fi
